@@ -109,6 +109,30 @@ def bareEmpty : Val → Bool
   | .map .nil => true
   | _ => false
 
+/-- names a type may bear: not empty, not numeric (docs/formats/zson.md), not a primitive
+    type name (`LookupTypeNamed` refuses those). -/
+def nameOK (n : Name) : Bool := n != [] && !isNumeric n && (lookupPrimitive n).isNone
+
+/-- the value gets no decorator of its own from `formatVector` / `formatMap` (its union
+    element types, if any, are fully populated). -/
+def noOwnDeco : Ty → Val → Bool
+  | .array et, .array vs => !needsDecoration et (seenTypes et vs [])
+  | .set et, .set vs => !needsDecoration et (seenTypes et vs [])
+  | .map kt vt, .map es => !(needsDecoration kt (seenKeys kt es []) || needsDecoration vt (seenVals vt es []))
+  | _, _ => true
+
+/-- the analyzer's tables after entering the typedef `n = t`. -/
+def aPush (a0 : AState) (n : Name) (t : Ty) : AState :=
+  { names := (n, t) :: a0.names, ctxdefs := (n, t) :: a0.ctxdefs }
+
+/-- the guard of `zson_roundtrip_value_named_top_partial` for a value of type `t` written by a
+    formatter that has not seen the name yet. -/
+def namedTopGuard : Ty → Val → Bool
+  | .named n u, .named v =>
+    nameOK n && plainTy u && wfTy u && wfVal u v && !v.isNull && !bareEmpty v && noOwnDeco u v &&
+      (enumSyms u).isNone
+  | _, _ => false
+
 /-- the model's own round trip of one value through a fresh formatter and a fresh analyzer
     (used to state the negation witnesses). -/
 def rtOK (t : Ty) (v : Val) : Bool :=
